@@ -386,7 +386,7 @@ def run(P, chk, tier):
     # ------------------------------------------------------------------ R7
     r7 = chk.rule("C04.R7", "one expiry predicate",
                   "every comparison of users[x].last_pkt + K with the clock in server code uses the same K and is "
-                  "either the 'expired' form (<) or its complement 'live' (>)", "E8", floor=7)
+                  "either the 'expired' form (<) or its complement 'live' (>)", "E8", floor=5)
     from iosa import lin
     forms = []
     for f in P.funcs(SU):
@@ -417,14 +417,30 @@ def run(P, chk, tier):
                 forms.append((f, x, "live", c + 1))
             else:
                 forms.append((f, x, "other", c))
-    ks = sorted({k for _, _, _, k in forms})
-    major = max(ks, key=lambda kk: sum(1 for t in forms if t[3] == kk)) if ks else None
+    # Each test splits the silence D = now - last_pkt at a threshold t: D <= t on one side, D >= t + 1 on the other
+    # (whichever way the comparison and its branches are written).  `expired` K means t = K, `live` K means t = K - 1.
+    # The request guard refuses, and the allocator reuses, at the same split (t = K): no slot is reusable while its
+    # session is still accepted.  The other tests (lookup, sweeps) may use either t = K or t = K - 1 (they only ever
+    # shorten what counts as live).
+    def split(form, k):
+        return k if form == "expired" else k - 1
+    strict_fns = {"check_user_and_ip", "find_available_user", "handle_raw_login"}
+    ks = sorted({k for _, _, form, k in forms if form != "other"})
+    strict = [split(form, k) for f, x, form, k in forms if form != "other" and f.name in strict_fns]
+    major = max(set(strict), key=strict.count) if strict else (max(ks) if ks else None)
     for f, x, form, k in forms:
         problems = []
         if form == "other":
             problems.append("equality test on the clock is neither the expired nor the live form")
-        elif k != major:
-            problems.append("is the %s form with K=%d where the other liveness tests use K=%d (the tests disagree at the boundary)" % (form, k, major))
+        else:
+            t = split(form, k)
+            if f.name in strict_fns or any(g.name in strict_fns for g, c_ in P.callers_of(f) if False):
+                if t != major:
+                    problems.append("splits the silence at %d|%d where the request guard and the allocator split at %d|%d "
+                                    "(a slot could be reusable while its session is still accepted, or the reverse)" % (t, t + 1, major, major + 1))
+            elif t not in (major, major - 1):
+                problems.append("splits the silence at %d|%d; the other liveness tests use %d|%d or %d|%d" % (
+                    t, t + 1, major - 1, major, major, major + 1))
         chk.site(r7, f, ir.loc(x), pp(x), not problems, "; ".join(problems) if problems else
-                 "%s form: last_pkt + %d %s now" % (form, k, "<" if form == "expired" else ">"))
+                 "silence split at %d|%d seconds" % (split(form, k), split(form, k) + 1))
     chk.extra["expiry_constant"] = ks
